@@ -12,7 +12,7 @@ import Mfi.Lemmas.WorldPos
 import Mfi.Lemmas.WorldLedger
 import Mfi.Lemmas.SolvL
 import Mfi.Lemmas.DeltaL
-import Mfi.Props.C03
+import Mfi.Lemmas.FreeL
 import Mfi.Props.C05
 import Mfi.Props.C17
 import Mathlib.Tactic.Positivity
@@ -130,12 +130,12 @@ theorem fee_defined {bps maxFee post pre : Int} (hb0 : 0 ≤ bps) (hb1 : bps ≤
         split at h
         · injection h with h; omega
         · split at h
-          · exact (Mfi.Props.C03.chkU64_some h).1 ▸ ⟨(Mfi.Props.C03.chkU64_some h).2.1, (Mfi.Props.C03.chkU64_some h).2.2⟩
+          · exact (Mfi.FreeL.chkU64_some h).1 ▸ ⟨(Mfi.FreeL.chkU64_some h).2.1, (Mfi.FreeL.chkU64_some h).2.2⟩
           · split at h
             · cases h
             · split at h
-              · exact (Mfi.Props.C03.chkU64_some h).1 ▸ ⟨(Mfi.Props.C03.chkU64_some h).2.1, (Mfi.Props.C03.chkU64_some h).2.2⟩
-              · exact (Mfi.Props.C03.chkU64_some h).1 ▸ ⟨(Mfi.Props.C03.chkU64_some h).2.1, (Mfi.Props.C03.chkU64_some h).2.2⟩
+              · exact (Mfi.FreeL.chkU64_some h).1 ▸ ⟨(Mfi.FreeL.chkU64_some h).2.1, (Mfi.FreeL.chkU64_some h).2.2⟩
+              · exact (Mfi.FreeL.chkU64_some h).1 ▸ ⟨(Mfi.FreeL.chkU64_some h).2.1, (Mfi.FreeL.chkU64_some h).2.2⟩
       have hraw : 0 ≤ (pre * bps + 10000 - 1) / 10000 ∧ (pre * bps + 10000 - 1) / 10000 ≤ U64MAX := by
         have hpb : 0 ≤ pre * bps := Int.mul_nonneg hu.1 hb0
         have hle : pre * bps ≤ pre * 10000 := Int.mul_le_mul_of_nonneg_left hb1 hu.1
@@ -158,7 +158,7 @@ theorem received_covers {e : Ix.Env} {post pre : Int} (htf : 0 ≤ e.tfBps ∧ e
     obtain ⟨f, hf⟩ := fee_defined htf.1 htf.2.1 hp hx
     unfold received
     rw [hf]
-    exact Mfi.Props.C03.prefee_covers htf.1 htf.2.1 htf.2.2 hp hx hf
+    exact Mfi.FreeL.prefee_covers htf.1 htf.2.1 htf.2.2 hp hx hf
   · cases h
 
 /-! ### the five user instructions -/
@@ -245,7 +245,7 @@ theorem deposit_solv {c : Ctx} {amount : Int} {upTo : Bool} {o : Out} (h : depos
     have hd0 : 0 ≤ Fx.ofInt amt := Int.mul_nonneg hamt0 (le_of_lt ONE_pos)
     have hst := increase_step hr' hsv.asv (le_of_lt hsv.lsv) hd0 (by simpa [toBal] using hnn.2)
     have hfr := inc_frame hr'
-    have hx2 := Mfi.Props.C03.inc_nonneg hr' hd0 (by omega) hsv.lsv (by simpa [toBal] using hnn.1) (by simpa [toBal] using hnn.2)
+    have hx2 := Mfi.FreeL.inc_nonneg hr' hd0 (by omega) hsv.lsv (by simpa [toBal] using hnn.1) (by simpa [toBal] using hnn.2)
     have hcov := received_covers (e := c.ixEnv) hp.cfg.tf hamt0 hpre
     have hx' : (x'.getD (toBal s)) = r.2 := by rw [← hx]; rfl
     refine ⟨?_, by rw [← hb']; exact SvFee_of_frame hsv hfr, by rw [← hb', hfr.1]; exact m1, by rw [← hb', hfr.2.1]; exact m2, ?_⟩
@@ -278,7 +278,7 @@ theorem prefee_nonneg {e : Ix.Env} {post pre : Int} (htf : 0 ≤ e.tfBps ∧ e.t
           rw [hc] at hf
           simp only [Option.map_some] at hf
           injection hf with hf
-          have := (Mfi.Props.C03.chkU64_some hc)
+          have := (Mfi.FreeL.chkU64_some hc)
           have h1 : 0 ≤ raw := by omega
           have h2 := htf.2.2
           omega
@@ -336,7 +336,7 @@ theorem borrowCore_solv {e : Ix.Env} {b b' : Bank} {x x' : Balance} {amount t : 
     have htot0 : 0 ≤ tot := by omega
     have hst := decrease_step hd hb.asv (le_of_lt hb.lsv) htot0 hx.1
     have hfr := dec_frame hd
-    have hnn := Mfi.Props.C03.dec_nonneg hd htot0 hasv hb.lsv hx.1 hx.2
+    have hnn := Mfi.FreeL.dec_nonneg hd htot0 hasv hb.lsv hx.1 hx.2
     have hsv2 := SvFee_of_frame hb hfr
     have e1 : tot * ONE = pre * ONE * ONE + fee * ONE := by rw [etot]; unfold Fx.ofInt; ring
     split at h
@@ -381,7 +381,7 @@ theorem borrowCore_solv {e : Ix.Env} {b b' : Bank} {x x' : Balance} {amount t : 
     subst h1; subst h2; subst h3
     have hst := decrease_step hd hb.asv (le_of_lt hb.lsv) hofpre hx.1
     have hfr := dec_frame hd
-    have hnn := Mfi.Props.C03.dec_nonneg hd hofpre hasv hb.lsv hx.1 hx.2
+    have hnn := Mfi.FreeL.dec_nonneg hd hofpre hasv hb.lsv hx.1 hx.2
     have e1 : Fx.ofInt pre * ONE = pre * ONE * ONE := rfl
     rw [e1] at hst
     exact ⟨hst, SvFee_of_frame hb hfr, hfr.1, hfr.2.1, hnn.1, hnn.2⟩
@@ -505,7 +505,7 @@ theorem withdraw_solv {c : Ctx} {amount : Int} {all : Bool} {o : Out} (h : withd
     have hofp : 0 ≤ Fx.ofInt p := Int.mul_nonneg hp0 (le_of_lt ONE_pos)
     have hst := decrease_step hd hsv.asv (le_of_lt hsv.lsv) hofp (by simpa [toBal] using hnn.1)
     have hfr := dec_frame hd
-    have hx2 := Mfi.Props.C03.dec_nonneg hd hofp (by omega) hsv.lsv (by simpa [toBal] using hnn.1) (by simpa [toBal] using hnn.2)
+    have hx2 := Mfi.FreeL.dec_nonneg hd hofp (by omega) hsv.lsv (by simpa [toBal] using hnn.1) (by simpa [toBal] using hnn.2)
     have e1 : Fx.ofInt p * ONE = p * ONE * ONE := rfl
     rw [e1] at hst
     refine ⟨?_, SvFee_of_frame hsv hfr, by rw [hfr.1]; exact m1, by rw [hfr.2.1]; exact m2, by rw [hsl]; exact AllNN_write hp.slots hx2⟩
@@ -570,7 +570,7 @@ theorem repay_solv {c : Ctx} {amount : Int} {all : Bool} {o : Out} (h : repay c 
     have hofa : 0 ≤ Fx.ofInt amount := Int.mul_nonneg ha (le_of_lt ONE_pos)
     have hst := increase_step hd hsv.asv (le_of_lt hsv.lsv) hofa (by simpa [toBal] using hnn.2)
     have hfr := inc_frame hd
-    have hx2 := Mfi.Props.C03.inc_nonneg hd hofa (by omega) hsv.lsv (by simpa [toBal] using hnn.1) (by simpa [toBal] using hnn.2)
+    have hx2 := Mfi.FreeL.inc_nonneg hd hofa (by omega) hsv.lsv (by simpa [toBal] using hnn.1) (by simpa [toBal] using hnn.2)
     have hsv' : SvFee o.books := by
       rw [hbooks]
       have := SvFee_of_frame hsv hfr
@@ -622,7 +622,7 @@ theorem inc_nonneg0 {b0 b' : Bank} {x0 x' : Balance} {now delta : Int} {t : IncT
     (h : increaseBalance b0 x0 now delta t = .ok (b', x'))
     (hd : 0 ≤ delta) (hasv : 0 ≤ b0.asv) (hlsv : 0 < b0.lsv) (ha : 0 ≤ x0.a) (hl : 0 ≤ x0.l) : 0 ≤ x'.a ∧ 0 ≤ x'.l := by
   rcases Int.lt_or_eq_of_le hasv with h1 | h1
-  · exact Mfi.Props.C03.inc_nonneg h hd h1 hlsv ha hl
+  · exact Mfi.FreeL.inc_nonneg h hd h1 hlsv ha hl
   · obtain ⟨b1, x1, curL, d, aInc, lDec, b2, b3, hc, hcur, hsub, _, _, has, hb2, hld, hb3, _, _, _, _, hx', _⟩ := (increase_spec h).ex
     obtain ⟨⟨r, hb1⟩, ⟨e, hx1⟩⟩ := claim_frame hc
     obtain ⟨e2, _, _⟩ := changeAsset_frame hb2
@@ -639,7 +639,7 @@ theorem inc_nonneg0 {b0 b' : Bank} {x0 x' : Balance} {now delta : Int} {t : IncT
       injection has with has; exact has.symm
     have hcur0 : 0 ≤ curL := by
       rw [ecur, hx1l, hb1lsv]; exact Int.ediv_nonneg (Int.mul_nonneg hl (le_of_lt hlsv)) (le_of_lt hONE)
-    have sl := Mfi.Props.C03.liabShares_spec (b := b2) (v := min curL delta) (by omega) (by rw [hb2lsv]; exact hlsv) hld
+    have sl := Mfi.FreeL.liabShares_spec (b := b2) (v := min curL delta) (by omega) (by rw [hb2lsv]; exact hlsv) hld
     rw [hb2lsv] at sl
     rw [hx']
     simp only [hx1a, hx1l, haInc]
@@ -925,14 +925,14 @@ theorem liquidate_solv {c : LiqCtx} {amount : Int} {o : LiqOutW} (h : liquidate 
   have n1 := AllNN_get nnQ1 hs1
   have st1 := decrease_step hr1 hsvL.asv (le_of_lt hsvL.lsv) q1 (by simpa [toBal] using n1.1)
   have fr1 := dec_frame hr1
-  have x1 := Mfi.Props.C03.dec_nonneg hr1 q1 hasvL hsvL.lsv (by simpa [toBal] using n1.1) (by simpa [toBal] using n1.2)
+  have x1 := Mfi.FreeL.dec_nonneg hr1 q1 hasvL hsvL.lsv (by simpa [toBal] using n1.1) (by simpa [toBal] using n1.2)
   have sv1 := SvFee_of_frame hsvL fr1
   -- move 2: liquidatee gives up the collateral
   have nnE := AllNN_sort hp.slotsE
   have n2 := AllNN_get nnE hs2
   have st2 := decrease_step hr2 hsvA.asv (le_of_lt hsvA.lsv) hofa (by simpa [toBal] using n2.1)
   have fr2 := dec_frame hr2
-  have x2 := Mfi.Props.C03.dec_nonneg hr2 hofa hasvA hsvA.lsv (by simpa [toBal] using n2.1) (by simpa [toBal] using n2.2)
+  have x2 := Mfi.FreeL.dec_nonneg hr2 hofa hasvA hsvA.lsv (by simpa [toBal] using n2.1) (by simpa [toBal] using n2.2)
   have sv2 := SvFee_of_frame hsvA fr2
   -- move 3: liquidator receives it
   have nnQ2 : AllNN (lq1.set i1 (ofBal c.lb.key r1.2)) := AllNN_set nnQ1 (ofBal_nn x1)
@@ -940,14 +940,14 @@ theorem liquidate_solv {c : LiqCtx} {amount : Int} {o : LiqOutW} (h : liquidate 
   have n3 := AllNN_get nnQ3 hs3
   have st3 := increase_step hr3 sv2.asv (le_of_lt sv2.lsv) hofa (by simpa [toBal] using n3.2)
   have fr3 := inc_frame hr3
-  have x3 := Mfi.Props.C03.inc_nonneg hr3 hofa (by rw [fr2.1]; exact hasvA) sv2.lsv (by simpa [toBal] using n3.1) (by simpa [toBal] using n3.2)
+  have x3 := Mfi.FreeL.inc_nonneg hr3 hofa (by rw [fr2.1]; exact hasvA) sv2.lsv (by simpa [toBal] using n3.1) (by simpa [toBal] using n3.2)
   have sv3 := SvFee_of_frame sv2 fr3
   -- move 4: liquidatee's debt is repaid
   have nnE2 : AllNN ((sortBalances c.le.slots).set i2 (ofBal c.ab.key r2.2)) := AllNN_set nnE (ofBal_nn x2)
   have n4 := AllNN_get nnE2 hs4
   have st4 := increase_step hr4 sv1.asv (le_of_lt sv1.lsv) q2 (by simpa [toBal] using n4.2)
   have fr4 := inc_frame hr4
-  have x4 := Mfi.Props.C03.inc_nonneg hr4 q2 (by rw [fr1.1]; exact hasvL) sv1.lsv (by simpa [toBal] using n4.1) (by simpa [toBal] using n4.2)
+  have x4 := Mfi.FreeL.inc_nonneg hr4 q2 (by rw [fr1.1]; exact hasvL) sv1.lsv (by simpa [toBal] using n4.1) (by simpa [toBal] using n4.2)
   have sv4 := SvFee_of_frame sv1 fr4
   have eA : o.assetBooks.asv = a.asv ∧ o.assetBooks.lsv = a.lsv := by rw [hoa, fr3.1, fr3.2.1, fr2.1, fr2.2.1]; exact ⟨rfl, rfl⟩
   have eL : o.liabBooks.asv = l.asv ∧ o.liabBooks.lsv = l.lsv := by
